@@ -136,6 +136,74 @@ static void op_seq(uint64_t lo, uint64_t hi)
 	printf("%016llx %llu\n", (unsigned long long)h, (unsigned long long)n);
 }
 
+/* utf8_seq_size the way a C caller uses it: THROUGH THE HEADER's prototype, with the lead byte
+ * taken from the `char` buffers every other function of utf8.h works on, and through
+ * signed/unsigned char lvalues.  The conversion of the argument is done by the compiler
+ * according to the prototype in force (working tree's usual/utf8.h) and the signedness of
+ * plain char of this build. */
+static uint64_t call_seqc(unsigned v, int out[3])
+{
+	char cbuf[1];
+	signed char sc;
+	unsigned char uc = (unsigned char)v;
+	const char *p = cbuf;
+	int r1, r2, r3;
+	memcpy(cbuf, &uc, 1);
+	memcpy(&sc, &uc, 1);
+	r1 = utf8_seq_size(*p);
+	r2 = utf8_seq_size(sc);
+	r3 = utf8_seq_size(uc);
+	if (out) { out[0] = r1; out[1] = r2; out[2] = r3; }
+	return (uint64_t)(uint8_t)r1 | ((uint64_t)(uint8_t)r2 << 8) | ((uint64_t)(uint8_t)r3 << 16);
+}
+
+static void op_seqc(uint64_t lo, uint64_t hi)
+{
+	uint64_t h = HC_FNV_INIT, n = 0, b;
+	for (b = lo; b < hi; b++) {
+		uint64_t r = call_seqc((unsigned)b, NULL);
+		if (r != 0) n++;
+		h = mix(h, r);
+	}
+	printf("%016llx %llu\n", (unsigned long long)h, (unsigned long long)n);
+}
+
+/* put_char into 4 bytes of room, then get_char on an exact-size copy of what was stored */
+static uint64_t call_rt(unsigned c, int *okp, unsigned *np, int *retp, long *advp)
+{
+	uint8_t out[16];
+	unsigned nout = 0;
+	int ok = 0, ret = 0;
+	long adv = 0;
+	uint64_t v;
+	call_put(c, 4, out, &nout, &ok);
+	if (ok && nout > 0) {
+		uint8_t *b = malloc(nout);
+		const char *p = (const char *)b;
+		memcpy(b, out, nout);
+		ret = utf8_get_char(&p, (const char *)b + nout);
+		adv = (long)(p - (const char *)b);
+		free(b);
+		v = (uint64_t)(uint32_t)ret | ((uint64_t)adv << 32) | ((uint64_t)nout << 40);
+	} else {
+		v = 0xFFFFFFFFFFFFFFFFULL ^ (ok ? 1 : 0);
+	}
+	if (okp) { *okp = ok; *np = nout; *retp = ret; *advp = adv; }
+	return v;
+}
+
+static void op_rt(uint64_t lo, uint64_t hi)
+{
+	uint64_t h = HC_FNV_INIT, n = 0, c;
+	for (c = lo; c < hi; c++) {
+		int ok, ret; unsigned nout; long adv;
+		uint64_t v = call_rt((unsigned)c, &ok, &nout, &ret, &adv);
+		if (ok && nout > 0 && (uint32_t)ret == (uint32_t)c && adv == (long)nout) n++;
+		h = mix(h, v);
+	}
+	printf("%016llx %llu\n", (unsigned long long)h, (unsigned long long)n);
+}
+
 int main(void)
 {
 	char *line, *w[8];
@@ -159,6 +227,21 @@ int main(void)
 		} else if (nw == 3 && !strcmp(w[0], "seq") && parse_u64(w[1], &lo) && parse_u64(w[2], &hi) &&
 			   lo <= hi && hi <= 256) {
 			op_seq(lo, hi);
+		} else if (nw == 3 && !strcmp(w[0], "seqc") && parse_u64(w[1], &lo) && parse_u64(w[2], &hi) &&
+			   lo <= hi && hi <= 256) {
+			op_seqc(lo, hi);
+		} else if (nw == 3 && !strcmp(w[0], "rt") && parse_u64(w[1], &lo) && parse_u64(w[2], &hi) &&
+			   lo <= hi && hi <= (1ULL << 32)) {
+			op_rt(lo, hi);
+		} else if (nw == 2 && !strcmp(w[0], "seqsizec") && parse_hex64(w[1], &a) && a < 256) {
+			int r[3];
+			call_seqc((unsigned)a, r);
+			printf("%d %d %d\n", r[0], r[1], r[2]);
+		} else if (nw == 2 && !strcmp(w[0], "rtc") && parse_hex64(w[1], &a) && a < (1ULL << 32)) {
+			int ok, ret; unsigned nout; long adv;
+			call_rt((unsigned)a, &ok, &nout, &ret, &adv);
+			if (ok && nout > 0) printf("%d %u %d %ld\n", ok, nout, ret, adv);
+			else printf("%d 0 - -\n", ok);
 		} else if (nw == 2 && !strcmp(w[0], "vseq") && (len = hc_unhex(w[1], &bytes)) >= 1) {
 			printf("%d\n", utf8_validate_seq((char *)bytes, (char *)bytes + len));
 			free(bytes);
